@@ -285,6 +285,19 @@ def K13():
     return ok, "previous_block is the live first block: %r; its t = %r, the live block's t = %r" % (prev is first, prev["t"], first["t"])
 
 
+def K14():
+    """C13: the case of a word with a special character is not BibTeX's (control words \\O \\L \\AA ..., a letter in a braced accent argument)"""
+    from bibtexparser.middlewares.names import parse_single_name_into_parts
+    bad = []
+    # (name, first, von, last) as BibTeX's von_token_found decides: \O is an upper-case control word, the C of \v{C} is the first letter
+    for name, first, von, last in [("Bent {\\O}rsted Hansen", ["Bent", "{\\O}rsted"], [], ["Hansen"]),
+                                   ("Jan {\\v{C}}apek Novak", ["Jan", "{\\v{C}}apek"], [], ["Novak"])]:
+        x = parse_single_name_into_parts(name)
+        if (x.first, x.von, x.last) != (first, von, last):
+            bad.append("%s -> first %r von %r last %r" % (name, x.first, x.von, x.last))
+    return not bad, "; ".join(bad) or "as BibTeX"
+
+
 def K7():
     """C05: explicit comment ending in backslash + whitespace does not round-trip"""
     bp = _bp()
@@ -372,7 +385,7 @@ def F17():
     return not shared, "output metadata list is the input's / the middleware's own list: %r" % shared
 
 
-ALL = [F1, F2, F3, F4, F5, F6, F7, F8, F9, F10, F11, F12, F13, F14, F15, F16, F17, F18, K1, K2, K3, K4, K5, K6, K7, K8, K9, K10, K11, K12, K13]
+ALL = [F1, F2, F3, F4, F5, F6, F7, F8, F9, F10, F11, F12, F13, F14, F15, F16, F17, F18, K1, K2, K3, K4, K5, K6, K7, K8, K9, K10, K11, K12, K13, K14]
 
 if __name__ == "__main__":
     import bibtexparser
